@@ -35,7 +35,8 @@ EXPLANATION = (
     'DESIGN 4/C07, not the two-spec behaviour.'
     ' R7: introducing or inlining an alias is compatible only if an aliased reference keeps its Nullable wrap and bounds: generate_validator_constructor wraps Nullable on every return path (shared with C08-R3).'
     ' R8 (imported from C02-R6): lenient decoding of an unknown tag needs the catch-all the frontend adds to every open union.'
-    ' RD (decision drift, stonelint.conddrift): the tests of the functions this property is anchored in (stonelint.ownership) are compared with reference/conditions.json; a relation, polarity or connective changed over the same operands, or an operand purely added or dropped, is a violation; re-spellings and new or removed tests are not claimed.')
+    ' RD (decision drift, stonelint.conddrift): the tests of the functions this property is anchored in (stonelint.ownership) are compared with reference/conditions.json; a relation, polarity or connective changed over the same operands, or an operand purely added or dropped, is a violation; re-spellings and new or removed tests are not claimed.'
+    " RE (expression drift, stonelint.exprdrift): the same functions' attribute names, variable reads, simple statements, calls and arithmetic/slice literals are compared with reference/expressions.json; a substituted attribute or variable, a dropped call or assignment, swapped arguments or a changed literal is a violation; any other edit is not claimed.")
 ASSUMPTIONS = [
     'CPython ast of the current working tree is the program',
     'structured control flow only (no exceptions used for control inside the analysed functions '
@@ -426,3 +427,5 @@ def run(pm, ctx):
     from ..conddrift import run_decisions
     from ..ownership import OWN
     run_decisions(pm, ctx, 'C07-RD', OWN['C07'])
+    from .. import exprdrift
+    exprdrift.run(pm, ctx, 'C07-RE', OWN['C07'])
